@@ -50,7 +50,9 @@ static rc::Gen<Spec> genSpec(int depth) {
             s.tag = TAG_ARRAY;
             s.etype = *rc::gen::elementOf(std::vector<uint8_t>{TAG_INT, TAG_STRING, TAG_FLOAT, TAG_BOOL, TAG_ARRAY});
             int n = *rc::gen::inRange(0, 6);
-            for (int i = 0; i < n; i++) s.elems.push_back(*genSpec(depth - 1));
+            // long flat arrays: the element count must not be confused with the nesting depth (limit 64)
+            if (*rc::gen::resize(100, rc::gen::inRange(0, 8)) == 0) n = *rc::gen::elementOf(std::vector<int>{63, 64, 65, 66, 200, 1000});
+            for (int i = 0; i < n; i++) s.elems.push_back(n > 6 ? *genSpec(0) : *genSpec(depth - 1));
         }
         return s;
     });
